@@ -66,6 +66,7 @@ type graphCase struct {
 	Label   string            `json:"label"`
 	Extra   map[string]string `json:"extra,omitempty"` // explicit file contents (foreign cases)
 	Procs   int               `json:"procs,omitempty"` // GOMAXPROCS during the exploration (0 = the worker's own)
+	NoCheck bool              `json:"nocheck,omitempty"` // Settings.NoDifferentVersionCheck (the --no-different-version-check option)
 }
 
 var fileLetters = []string{"a", "b", "c", "d", "e", "f"}
@@ -316,6 +317,14 @@ func (c05) Cases(tier string, emit func(string, interface{})) {
 	for _, gc := range c05Graphs(tier) {
 		emit("graph", gc)
 	}
+	// the named shapes again with the different-version check switched off (its own path through the claim logic)
+	for _, shapes := range []map[string][][]int{namedShapes4, namedShapes5, {"dup-then-more": {{1, 2}, {}, {1, 3}, {4}, {}}}} {
+		for _, k := range sortedKeys(shapes) {
+			gc := mkGraphCase(shapes[k], 0, plainSpell, "a.sysl", k+" nocheck")
+			gc.NoCheck = true
+			emit("graph", gc)
+		}
+	}
 	// wide fans under GOMAXPROCS 1..4: logic that sizes its concurrency by the processor count must not
 	// change the result (the scheduler runs one thread at a time whatever the value)
 	for _, sh := range []struct {
@@ -510,7 +519,7 @@ func retrievalBody(gc graphCase, full bool, modOut **sysl.Module) sched.Body {
 				}
 			}()
 			p := parse.NewParser()
-			p.Set(parse.Settings{MaxImportDepth: gc.Limit, OperationSummary: true, NoParsing: !full})
+			p.Set(parse.Settings{MaxImportDepth: gc.Limit, OperationSummary: true, NoParsing: !full, NoDifferentVersionCheck: gc.NoCheck})
 			m, err = p.ParseFromFs(gc.Root, chroot)
 		}, func(killed bool) {
 			if killed {
@@ -549,7 +558,7 @@ func retrievalBody(gc graphCase, full bool, modOut **sysl.Module) sched.Body {
 }
 
 func graphKey(gc graphCase) string {
-	return fmt.Sprintf("%v|%v|root=%s|limit=%d|faults=%v|procs=%d", gc.Edges, gc.Imports, gc.Root, gc.Limit, gc.Faults, gc.Procs)
+	return fmt.Sprintf("%v|%v|root=%s|limit=%d|faults=%v|procs=%d|nocheck=%v", gc.Edges, gc.Imports, gc.Root, gc.Limit, gc.Faults, gc.Procs, gc.NoCheck)
 }
 
 func (c05) Run(c core.Case) core.Outcome {
